@@ -17,10 +17,13 @@ import (
 	"time"
 
 	"verifharness/fb"
+	"net"
+
 	"verifharness/gen"
 	"verifharness/hv"
 	"verifharness/px"
 
+	"github.com/datastax/cql-proxy/codecs"
 	"github.com/datastax/cql-proxy/proxy"
 	"github.com/datastax/go-cassandra-native-protocol/compression/lz4"
 	"github.com/datastax/go-cassandra-native-protocol/compression/snappy"
@@ -431,6 +434,88 @@ func genForward(ctx *Ctx, prop string) {
 			ctx.Count("override-applies")
 		}
 		ctx.Emit(in, out, note)
+	}
+	if prop == "C03" {
+		pipelinedLarge(ctx, be, withList)
+	}
+}
+
+// pipelinedLarge: several requests in flight on ONE client connection whose answers are large (tens of kilobytes to a
+// megabyte and more) while the client is slower than the backend (it starts reading late, through a small receive buffer),
+// so that answers queue up inside the proxy.  Each answer must still be the bytes the backend wrote for THAT request.
+func pipelinedLarge(ctx *Ctx, be *fb.Backend, p *fwProxy) {
+	r := ctx.Rng
+	const v = primitive.ProtocolVersion4
+	sizes := []int{20 << 10, 70 << 10, 100 << 10, 150 << 10, 260 << 10, 400 << 10}
+	if ctx.Tier == "thorough" {
+		sizes = append(sizes, 1<<20, 1<<20, 2<<20)
+	}
+	for round := 0; round < ctx.Scale(2, 10); round++ {
+		conn, err := net.DialTimeout("tcp", p.env.Addr, 5*time.Second)
+		if err != nil {
+			panic(err)
+		}
+		if t, ok := conn.(*net.TCPConn); ok {
+			_ = t.SetReadBuffer(8192)
+		}
+		_ = conn.SetDeadline(time.Now().Add(60 * time.Second))
+		_, _ = conn.Write(px.FrameBytes(byte(v), 0, 0, byte(primitive.OpCodeStartup), []byte{0, 1, 0, 11, 'C', 'Q', 'L', '_', 'V', 'E', 'R', 'S', 'I', 'O', 'N', 0, 5, '3', '.', '0', '.', '0'}))
+		if f, err := px.ReadFrame(conn); err != nil || f.Opcode != byte(primitive.OpCodeReady) {
+			panic(fmt.Sprintf("pipelined: startup: %v", err))
+		}
+		n := ctx.Scale(10, 24)
+		var reqs bytes.Buffer
+		toks, bodies := map[int16]string{}, map[int16][]byte{}
+		for i := 1; i <= n; i++ {
+			tok := fmt.Sprintf("pl%dx%dx%d", ctx.Seed%1000, round, i)
+			size := sizes[r.Intn(len(sizes))] + r.Intn(4096)
+			if round == 0 {
+				size = sizes[(i-1)%len(sizes)] + r.Intn(4096)
+			}
+			// a body that names its request all the way through: 16 random bytes, then the request's number repeated
+			body := append(r.Bytes(16), bytes.Repeat([]byte{byte('A' + i)}, size)...)
+			be.SetScript(tok, fb.Outcome{Kind: fb.RawReply, RawFlags: 0, RawOpcode: byte(primitive.OpCodeResult), RawBody: body})
+			toks[int16(i)], bodies[int16(i)] = tok, body
+			var buf bytes.Buffer
+			_ = codecs.DefaultRawCodec.EncodeFrame(frame.NewFrame(v, int16(i), &message.Query{Query: "SELECT v FROM ks.t WHERE k = 'tok:" + tok + "'", Options: &message.QueryOptions{Consistency: primitive.ConsistencyLevelOne}}), &buf)
+			reqs.Write(buf.Bytes())
+		}
+		_, _ = conn.Write(reqs.Bytes())
+		time.Sleep(400 * time.Millisecond) // the slow client: the answers pile up inside the proxy
+		got := map[int16]*px.Frame{}
+		for i := 0; i < n; i++ {
+			f, err := px.ReadFrame(conn)
+			if err != nil {
+				break
+			}
+			got[f.Stream] = f
+			if i%4 == 0 {
+				time.Sleep(20 * time.Millisecond)
+			}
+		}
+		_ = conn.Close()
+		snap := be.Snapshot()
+		be.ResetLog()
+		for i := 1; i <= n; i++ {
+			st := int16(i)
+			var rec *fb.Rec
+			for j := range snap {
+				if snap[j].Token == toks[st] && snap[j].Kind == "query" {
+					rec = &snap[j]
+				}
+			}
+			if rec == nil {
+				continue
+			}
+			back := fb.RawFrameBytes(byte(v), 0, rec.Stream, byte(primitive.OpCodeResult), bodies[st])
+			note := fmt.Sprintf("response:pipelined-large:%dKiB", len(bodies[st])>>10)
+			ctx.Count(fmt.Sprintf("pipelined-large-response:%dKiB+", (len(bodies[st])>>16)<<6))
+			if g := got[st]; g != nil {
+				ctx.Emit(hv.L(hv.B(back), hv.I(int64(uint16(st)))), hv.L(hv.B(g.Raw)), note)
+			} else {
+				ctx.Emit(hv.L(hv.B(back), hv.I(int64(uint16(st)))), hv.L(), note)
+			}
+		}
 	}
 }
 
